@@ -61,11 +61,11 @@ Monotone ==
 
 \* Scaling ------------------------------------------------------------------------
 \* Homogeneity: multiplying every period, jitter, cost, deadline, the blocking bound and the limit by K multiplies
-\* the bound by K (Err stays Err) -- for the fully preemptive, non-preemptive and floating non-preemptive FP analyses,
+\* the bound by K (Err stays Err) -- for all four FP analyses (preemptive, non-preemptive, limited-preemptive, floating),
 \* for fully preemptive EDF and for FIFO.  This is what lets bounds recorded from the implementation at magnitudes far
 \* beyond TLC's integers be checked against the bounds of the K-times smaller system (stage "scaled-systems" of C06:
 \* the small system is validated equationally by TLC, the relation big = K * small by Apalache over unbounded integers).
-\* The EDF analyses with non-preemptive segments are NOT homogeneous (the blocking term "segment - 1" does not scale;
+\* The EDF analyses with non-preemptive segments (np, lp, fnp) are NOT homogeneous (the blocking term "segment - 1" does not scale;
 \* EdfFnpWouldBeHomogeneous below is violated) and are not part of that stage.
 Scale(t, K) == [Task(K * t.T, K * t.J, K * t.C, K * t.D) EXCEPT !.last = 1, !.seg = K * t.seg]
 Times(K, v) == IF v = NONE THEN NONE ELSE K * v
@@ -73,6 +73,9 @@ Homogeneous ==
     \A K \in {2, 3} :
         /\ \A p \in {"fp_p", "fp_np", "fp_fnp"} :
                FpDef(p, Scale(tua, K), <<Scale(oth, K)>>, K * B, K * lim) = Times(K, Fp(p, tua, B, lim))
+        /\ \A l \in 1..tua.C :        \* limited-preemptive FP with every length of the last segment
+               FpDef("fp_lp", [Scale(tua, K) EXCEPT !.last = K * l], <<Scale(oth, K)>>, K * B, K * lim)
+                  = Times(K, Fp("fp_lp", WithLast(tua, l), B, lim))
         /\ EdfDef("edf_p", Scale(tua, K), <<Scale(oth, K)>>, K * lim) = Times(K, Edf("edf_p", tua, oth, lim))
         /\ FifoDef(<<Scale(tua, K), Scale(oth, K)>>, K * lim) = Times(K, FifoDef(<<tua, oth>>, lim))
 \* the negative fact (violated; not part of any registered configuration)
